@@ -2,14 +2,18 @@ import Gsu.Model.Dup
 import Gsu.Util.Proto
 open Gsu.Proto Gsu.Dup
 
+def parseBools (s : String) : Option (List Bool) :=
+  if s = "-" then some [] else allSome (s.toList.map fun c => parseBool (String.singleton c))
+
+/-- `<emptyKey primary modeU containsKey changed present>:<fields empty>:<key>` -/
 def parseIx (s : String) : Option IxIn :=
   match s.splitOn ":" with
-  | [fl, k] =>
-    match fl.toList.map (fun c => parseBool (String.singleton c)), parseBytes k with
-    | [some a, some b, some c, some d, some e, some f, some g], some k =>
-      some { emptyKey := a, primary := b, modeU := c, containsKey := d, uniqueEmpty := e,
+  | [fl, es, k] =>
+    match parseBools fl, parseBools es, parseBytes k with
+    | some [a, b, c, d, f, g], some es, some k =>
+      some { emptyKey := a, primary := b, modeU := c, containsKey := d, fieldsEmpty := es,
              changed := f, present := g, key := k }
-    | _, _ => none
+    | _, _, _ => none
   | _ => none
 
 def step (l : List String) : String :=
@@ -18,6 +22,10 @@ def step (l : List String) : String :=
     match parseBool p, parseBool u, parseBool c, parseBool e with
     | some p, some u, some c, some e => showBool (Gsu.Gen.Check.needsDupCheck p u c e)
     | _, _, _, _ => "bad-op"
+  | ["uniqempty", es] =>
+    match parseBools es with
+    | some es => showBool (Gsu.Gen.Check.uniqueIndexEmpty es)
+    | none => "bad-op"
   | "dup" :: upd :: ixs =>
     match parseBool upd, allSome (ixs.map parseIx) with
     | some upd, some xs =>
